@@ -9,6 +9,7 @@ import (
 	"fmt"
 	"runtime/debug"
 	"sync/atomic"
+	"time"
 )
 
 // Pred reports whether a parked thread's pending operation can complete now.
@@ -86,6 +87,14 @@ type Sched struct {
 
 var active atomic.Pointer[Sched]
 
+// freeAlive counts goroutines started by Go() while no scheduler was installed
+// and still running. Such a goroutine must not meet a scheduler (it would be
+// mistaken for the current thread), so Run refuses to start while any is alive.
+var freeAlive atomic.Int64
+
+// FreeGoroutines reports how many free-running library goroutines are alive.
+func FreeGoroutines() int64 { return freeAlive.Load() }
+
 // Cur returns the installed scheduler or nil.
 func Cur() *Sched { return active.Load() }
 
@@ -105,6 +114,12 @@ func Run(chooser Chooser, maxSteps int, traceOn bool, main func()) *Result {
 		maxSteps = 200000
 	}
 	s := &Sched{chooser: chooser, finished: make(chan struct{}, 1), abortAck: make(chan struct{}), maxSteps: maxSteps, TraceOn: traceOn, closed: map[any]bool{}}
+	for i := 0; freeAlive.Load() > 0 && i < 2000; i++ {
+		time.Sleep(time.Millisecond) // goroutines of a WAL that was just closed are on their way out
+	}
+	if n := freeAlive.Load(); n > 0 {
+		panic(fmt.Sprintf("vsched: %d free-running library goroutines are still alive (a WAL opened without a scheduler was not closed); refusing to install a scheduler", n))
+	}
 	if !active.CompareAndSwap(nil, s) {
 		panic("vsched: scheduler already active")
 	}
@@ -306,7 +321,11 @@ func Block(pred Pred, desc string) {
 func Go(fn func()) {
 	s := Cur()
 	if s == nil {
-		go fn()
+		freeAlive.Add(1)
+		go func() {
+			defer freeAlive.Add(-1)
+			fn()
+		}()
 		return
 	}
 	if s.aborting {
